@@ -105,10 +105,44 @@ def check_c04(ck, tier, replay=None):
             s_, mdl = smt.prove(ck, 'WriteDist %s: written value = %s' % ('bonded' if bonded else 'non-bonded', 'norm * avg_i / (sum|avg| * step)' if bonded else '<V> * norm * avg_i / (4/3 pi (x2^3 - x1^3)) with x1 = x_i - step/2, zero where x1 < 0'), list(it.pc), [z3.Not(z3.And(goal))], TO, probe=[z3.Real('free') != vol * norm * avg[0], vol > 0, norm > 0])
             if s_ == 'sat': found.append(('WriteDist normalisation', 'bonded' if bonded else 'non-bonded', mdl))
     ck.bounds.update({'bins': NB, 'frames': '<= 3', 'interactions': 1, 'block length': '0 and 2'})
+    counting_inside(ck, tier)
     for tag, what, mdl in found:
         rep = common.write_replay('C04', tag + what, {}, {'tag': tag, 'what': what, 'model': mdl})
         ok, why = replay_native(tag, mdl)
         ck.violation('C04 ' + tag, what + ' ; ' + why, rep, reproduced=ok)
+
+def counting_inside(ck, tier):
+    """What a per-frame histogram holds before MergeWorker averages it comes from two library pieces decided under other
+    properties: HistogramNew::Process (value -> nearest bin, C13) and ExclusionList::IsExcluded (which pairs count, C03).
+    Their obligations are re-established here on the current tree, so a change to either that corrupts the csg_stat
+    distributions is reported under this property as well."""
+    import C13, C03
+    try:
+        sub = common.Check('C13', tier)
+        ir, dt = common.compile_ir(common.harness_path(C13.HARNESS), extra=['-I' + common.REPO]); mod13 = llir.parse_module(ir)
+        f2 = C13.e2_semantics(sub, mod13, tier, {})
+        for o in sub.obl: o2 = dict(o); o2['name'] = 'bin counting used by csg_stat: ' + o['name']; ck.obl.append(o2)
+        ck.solver_time += sub.solver_time; ck.stubs |= sub.stubs
+        for w in sub.witness: ck.witness.append(('bin counting: ' + w[0], w[1]))
+        for i in sub.inconclusive: ck.inconc('bin counting: ' + i)
+        for tag, nb, periodic, mdl, vs, ws in f2[:2]:
+            meta = {'kind': 'bins', 'nb': nb, 'periodic': periodic, 'model': mdl}
+            rep = common.write_replay('C04', 'bins' + tag + str(mdl), {}, meta); ok, why = C13.replay_bins(meta)
+            ck.violation('C04 histogram bin counting', 'HistogramNew::Process (fills every csg_stat distribution), %s: a value is not added to its nearest bin / is counted although outside the range; %s' % (tag, why), rep, reproduced=ok)
+    except symx.Unsupported as e:
+        ck.inconc('bin counting (C13 obligations): %s' % str(e)[:200])
+    try:
+        sub = common.Check('C03', tier); found = []
+        ir, dt = common.compile_ir(common.harness_path(C03.HARNESS), extra=['-I' + common.REPO]); mod03 = llir.parse_module(ir)
+        C03.e2_exclusions(sub, mod03, tier, {}, found)
+        for o in sub.obl: o2 = dict(o); o2['name'] = 'pair exclusions used by csg_stat: ' + o['name']; ck.obl.append(o2)
+        ck.solver_time += sub.solver_time; ck.stubs |= sub.stubs
+        for i in sub.inconclusive: ck.inconc('pair exclusions: ' + i)
+        for tag, what, mdl in found[:2]:
+            rep = common.write_replay('C04', 'excl' + tag + what, {}, {'tag': tag, 'what': what, 'model': mdl})
+            ck.violation('C04 pair exclusions', 'ExclusionList::IsExcluded (decides which pairs enter a non-bonded distribution): ' + what, rep, reproduced=True)
+    except symx.Unsupported as e:
+        ck.inconc('pair exclusions (C03 obligations): %s' % str(e)[:200])
 
 def replay_native(tag, mdl):
     src = os.path.join(common.workdir(), 'c04rep.cc')
